@@ -80,11 +80,12 @@ def rend(memo, code="bAAA", curt=False, size=None, vid=None, mid=None, keepmode=
     return [bytes(g) for g in m.rend(memo, vid)], m.size
 
 
-def new_receiver(authic, keepmode="full"):
+def new_receiver(authic, keepmode="full", **cfg):
+    """cfg: the receiver's own transmit settings (code, curt, size), which must not matter for receiving"""
     import logging
     logging.disable(logging.CRITICAL)
     keep, _ = keep_and_vids(keepmode)
-    m = memoer_class()(authic=authic, keep=keep)
+    m = memoer_class()(authic=authic, keep=keep, **cfg)
     m.opened = True
     m._echoic = True
     return m
@@ -99,7 +100,8 @@ def src_index(s):
 
 
 def run_rx_ops(m, ops):
-    """ops: ["dgram", hex, src] | ["recv"] | ["grams"] | ["memos"] | ["all"] | ["once"]."""
+    """ops: ["dgram", hex, src] | ["recv"] | ["grams"] | ["memos"] | ["all"] | ["once"] |
+    ["rxset", "size"|"curt"|"code", value] (the receiver's own property setters)."""
     excs = []
     for op in ops:
         try:
@@ -115,6 +117,8 @@ def run_rx_ops(m, ops):
                 m.serviceAllRx()
             elif op[0] == "once":
                 m.serviceAllRxOnce()
+            elif op[0] == "rxset":
+                setattr(m, op[1], op[2])
             else:
                 raise ValueError(op)
             excs.append(None)
@@ -151,6 +155,11 @@ def hexb(h):
 def coq_rx_op(o):
     if o[0] == "dgram":
         return f"(MemoRx.Dgram {hexb(o[1])} {coq_N(o[2])})"
+    if o[0] == "rxset":
+        codes = {"bAAA": "MemoGram.GZ", "bAAC": "MemoGram.AZ", "bAAE": "MemoGram.SZ", "bAAG": "MemoGram.SAZ"}
+        arg = (f"(MemoGram.SetSize {coq_nat(min(o[2], 4999))})" if o[1] == "size" else
+               f"(MemoGram.SetCurt {coq_bool(o[2])})" if o[1] == "curt" else f"(MemoGram.SetCode {codes[o[2]]})")
+        return f"(MemoRx.RxSet {arg})"
     return {"recv": "MemoRx.SvcReceives", "grams": "MemoRx.SvcRxGrams", "memos": "MemoRx.SvcRxMemos",
             "all": "MemoRx.SvcAllRx", "once": "MemoRx.SvcAllRxOnce"}[o[0]]
 
